@@ -53,6 +53,11 @@ def reconn_scenarios(tier, rng):
         sc = S("ka-slow%d" % j, [P(1)], ["conn"], [{"p": "PINGREQ", "n": k, "o": "lateAck"} for k in range(1, 12)],
                opts=dict(opts, pingMs=10, connTimeoutMs=250, quietMs=200))
         out.append(sc)
+    # the response timeout left at its default (= the ping interval), with and without a keep-alive interval in CONNECT:
+    # a responsive broker is kept, a silent one is detected within about the ping interval
+    for j, ka in enumerate((0, 1, 5)):
+        out.append(S("ka-deft%d" % j, [P(1)], ["conn"], [], opts={"pingMs": 25, "keepAliveSec": ka, "quietMs": 250}))
+        out.append(S("ka-defs%d" % j, [P(1)], ["conn"], [{"p": "PINGREQ", "n": 2, "o": "dropAck"}], opts={"pingMs": 25, "keepAliveSec": ka, "quietMs": 250}))
     # a very prompt peer: the PINGRESP has been read and dispatched before Transport.Write of the PINGREQ returns
     for j in range(2 if tier == "quick" else 10):
         out.append(S("ka-prompt%d" % j, [P(1)], ["conn"], [], opts=dict(opts, pingMs=8, promptAcks=True, quietMs=200)))
